@@ -146,7 +146,8 @@ const secondaryIdxSeparator = "\x01"
 const secondaryIdxRangePrefixFormat = secondaryIdxKeyPrefix + "/%s/%s"
 const secondaryIdxFormat = secondaryIdxRangePrefixFormat + secondaryIdxSeparator + "%s"
 
-const regex = "^" + secondaryIdxKeyPrefix + "/[^/]+/([^" + secondaryIdxSeparator + "]+)" + secondaryIdxSeparator + "(.+)$"
+// Both the secondary key and the (escaped) primary key can be empty
+const regex = "^" + secondaryIdxKeyPrefix + "/[^/]+/([^" + secondaryIdxSeparator + "]*)" + secondaryIdxSeparator + "(.*)$"
 
 var secondaryIdxFormatRegex = regexp.MustCompile(regex)
 
@@ -309,12 +310,12 @@ func (it *secondaryIndexRangeIterator) Value() (*proto.GetResponse, error) {
 // /////////////////////////////////////////////////////////////////////////////////////////////////////////////////////
 
 func secondaryIndexGet(req *proto.GetRequest, db kv.DB) (*proto.GetResponse, error) {
-	primaryKey, secondaryKey, err := doSecondaryGet(db, req)
+	primaryKey, secondaryKey, found, err := doSecondaryGet(db, req)
 	if err != nil && !errors.Is(err, errFailedToParseSecondaryKey) {
 		return nil, err
 	}
 
-	if primaryKey == "" {
+	if !found {
 		return &proto.GetResponse{Status: proto.Status_KEY_NOT_FOUND}, nil
 	}
 
@@ -331,7 +332,7 @@ func secondaryIndexGet(req *proto.GetRequest, db kv.DB) (*proto.GetResponse, err
 	return gr, err
 }
 
-func doSecondaryGet(db kv.DB, req *proto.GetRequest) (primaryKey string, secondaryKey string, err error) {
+func doSecondaryGet(db kv.DB, req *proto.GetRequest) (primaryKey string, secondaryKey string, found bool, err error) {
 	indexName := *req.SecondaryIndexName
 	searchKey := fmt.Sprintf(secondaryIdxRangePrefixFormat, indexName, req.Key)
 	// All the entries of this index, and only them, start with this prefix. The iterator
@@ -340,7 +341,7 @@ func doSecondaryGet(db kv.DB, req *proto.GetRequest) (primaryKey string, seconda
 
 	it, err := db.KeyIterator()
 	if err != nil {
-		return "", "", err
+		return "", "", false, err
 	}
 
 	defer func() { _ = it.Close() }()
@@ -365,7 +366,7 @@ func doSecondaryGet(db kv.DB, req *proto.GetRequest) (primaryKey string, seconda
 		// There is no <= seek: first check for ==, then for <
 		it.SeekGE(searchKey)
 		if _, sk, ok, err := entry(); err != nil && !errors.Is(err, errFailedToParseSecondaryKey) {
-			return "", "", err
+			return "", "", false, err
 		} else if !ok || sk != req.Key {
 			it.SeekLT(searchKey)
 		}
@@ -375,7 +376,7 @@ func doSecondaryGet(db kv.DB, req *proto.GetRequest) (primaryKey string, seconda
 		for {
 			_, sk, ok, err := entry()
 			if err != nil && !errors.Is(err, errFailedToParseSecondaryKey) {
-				return "", "", err
+				return "", "", false, err
 			}
 			if !ok || compare.CompareWithSlash([]byte(req.Key), []byte(sk)) < 0 {
 				break
@@ -390,12 +391,12 @@ func doSecondaryGet(db kv.DB, req *proto.GetRequest) (primaryKey string, seconda
 
 	primaryKey, secondaryKey, ok, err := entry()
 	if err != nil || !ok {
-		return "", "", err
+		return "", "", false, err
 	}
 
 	if req.ComparisonType == proto.KeyComparisonType_EQUAL && secondaryKey != req.Key {
-		return "", "", nil
+		return "", "", false, nil
 	}
 
-	return primaryKey, secondaryKey, nil
+	return primaryKey, secondaryKey, true, nil
 }
